@@ -51,10 +51,34 @@ def host_override(T):
         _handshake.CookieJar = saved
 
 
+def redirect_cookies(T):
+    """a cookie set on a redirect response is a cookie received in a handshake response: it is sent to the redirect target when that lies in
+    its domain (and only then)"""
+    import base64
+    from corr import connrun
+    from sim.sock import accept_for
+    draw = bytes(range(16)).hex()
+    ok = (b"HTTP/1.1 101 SP\r\nUpgrade: websocket\r\nConnection: Upgrade\r\nSec-WebSocket-Accept: " + accept_for(base64.b64encode(bytes.fromhex(draw))) + b"\r\n\r\n").hex()
+    for status in (301, 302, 307):
+        for target, want in (("ws://app.shop.test/next", True), ("ws://shop.test/", True), ("ws://shop.test.evil.example/", False), ("ws://other.test/", False)):
+            redir = (b"HTTP/1.1 %d Moved\r\nSet-Cookie: sid=R7; Domain=shop.test\r\nLocation: " % status + target.encode() + b"\r\n\r\n").hex()
+            sc = {"url": "ws://login.shop.test/start", "rand": [draw, draw], "opts": {},
+                  "net": [{"addrs": ["A"], "script": [["D", redir]]}, {"addrs": ["A"], "script": [["D", ok]]}]}
+            reqs = connrun.run_impl(sc)[1]["requests"]
+            sent = len(reqs) == 2 and b"\r\nCookie: sid=R7\r\n" in reqs[1]
+            T.case(("redirect-cookie", status, target), nontrivial=True, bucket="redirect", sample={"status": status, "target": target, "cookie_sent": sent})
+            if len(reqs) != 2 or sent != want:
+                T.fail("spec", {"kind": "redirect-cookie", "status": status, "target": target}, "Cookie: sid=R7 sent" if want else "no cookie",
+                       f"{len(reqs)} requests, cookie sent: {sent}", {"site": "handshake", "cls": "redirect-cookie", "leak": not want},
+                       what="a cookie set by a redirect response must follow the same domain rule as any other")
+                return
+
+
 def run(ctx):
     T = Tally()
     direct(T)
     host_override(T)
+    redirect_cookies(T)
     n = "300" if ctx.tier == "quick" else "6000"
     tally_from(T, "cookie_validate.py", ["--seed", str(20 + ctx.seed), "--random", n], "model-vs-impl-vs-spec(cookies)",
                "SimpleCookieJar/_get_handshake_headers", "C20_exact, C20_scope")
